@@ -99,7 +99,11 @@ impl PayloadWriter {
         if current_len > self.max_payload_len {
             // If the current metric is too long, we need to truncate everything we just wrote to get us back to the end
             // of the last metric, since the previous parts of the buffer are still valid and could be flushed.
-            self.buf.truncate(self.last_offset());
+            //
+            // The length prefix placeholder written by `prepare_for_write` sits between the last metric and what we just
+            // wrote, and has to stay in place for the next metric.
+            let maybe_length_prefix_len = if self.with_length_prefix { 4 } else { 0 };
+            self.buf.truncate(current_last_offset + maybe_length_prefix_len);
 
             return false;
         }
